@@ -63,6 +63,9 @@ pub struct Model {
     /// pure mode: never look at the disk (used when candidate serial orders are replayed
     /// after the fact); a successful write is taken to publish its data
     pub pure: bool,
+    /// pure mode only: addresses a rejected commit may or may not have published (the data is
+    /// valid either way); the first observation of such an address settles it
+    pub maybe_content: BTreeMap<(Algo, String), Arc<Vec<u8>>>,
 }
 
 pub fn entry_matches(e: &Entry, key: &str, m: &MetaNorm) -> Result<(), String> {
@@ -125,6 +128,7 @@ impl Model {
             unjudged_keys: Default::default(),
             tmp_elsewhere: false,
             pure: false,
+            maybe_content: BTreeMap::new(),
         }
     }
 
@@ -196,6 +200,9 @@ impl Model {
         if self.pure {
             if must_hold_data {
                 self.content.insert(addr.clone(), CState::Data { bytes: expect.clone(), symlink: false });
+                self.maybe_content.remove(addr);
+            } else if !self.content.contains_key(addr) {
+                self.maybe_content.insert(addr.clone(), expect.clone());
             }
             return Ok(());
         }
@@ -233,6 +240,29 @@ impl Model {
         }
         if let Out::Hang = out {
             return Err(format!("{} did not return", step.op.name()));
+        }
+        if self.pure && !self.maybe_content.is_empty() {
+            // the first observation of an address a rejected commit may have published settles it
+            let a = match &step.op {
+                Op::Exists { addr } | Op::ReadHash { addr } | Op::RemoveHash { addr } | Op::Stream { by: By::Addr(addr), .. } | Op::Extract { by: By::Addr(addr), .. } => {
+                    Some((addr.algo, blob::hexs(&blob::digest_raw(addr.algo, &ctx.blob(addr.blob)))))
+                }
+                Op::Read { key } | Op::Stream { by: By::Key(key), .. } | Op::Extract { by: By::Key(key), .. } | Op::RemoveOpts { key, fully: true } => {
+                    self.index.get(ctx.key(*key)).and_then(|k| k.entry.as_ref()).and_then(|e| blob::sri_address(&e.integrity))
+                }
+                _ => None,
+            };
+            if let Some(a) = a {
+                if let Some(bytes) = self.maybe_content.remove(&a) {
+                    let present = matches!(out, Out::Bool(true) | Out::Bytes(..) | Out::Extracted { .. } | Out::Unit);
+                    if present && !self.content.contains_key(&a) {
+                        self.content.insert(a, CState::Data { bytes, symlink: false });
+                    }
+                }
+            }
+            if matches!(step.op, Op::Clear) {
+                self.maybe_content.clear();
+            }
         }
         // lookups of a key holding a planted record: anything but a panic
         let keyed = match &step.op {
@@ -579,6 +609,11 @@ impl Model {
             declare,
             integ
         );
+        // another writer stored the pool's next value by address while this one was open
+        if s.aged_hours > 0 && s.streamed() {
+            let o = (Algo::Sha256, blob::hexs(&blob::digest_raw(Algo::Sha256, &other)));
+            self.adopt_content(ctx, &o);
+        }
         // another process interfered between the last chunk and the commit: the cache state is
         // what that process left, and the commit may fail with any error
         let interfered = s.interfere != Interfere::None && s.streamed();
